@@ -29,8 +29,14 @@ EXTENDS Integers, Sequences, FiniteSets, TLC
 CONSTANTS
     Configs,    \* set of configuration records explored (MkCfg)
     MaxAge,     \* cap for ages and durations
-    MaxDt,      \* stream: time advance per point 0..MaxDt; batch: gap to the first point
-    MaxBatch    \* batch: 1..MaxBatch points
+    MaxDt,      \* stream: time advance per point 0..MaxDt
+    MaxBDt,     \* batch: gap between the previous tmax and the first point 0..MaxBDt
+    MaxBatch,   \* batch: 1..MaxBatch points
+    LeaveOKStartsDuration
+                \* TRUE: Impl as the code is since fix c143191 (addEvent records the start of
+                \* the episode when the level leaves OK).  FALSE: Impl as it was before (only
+                \* triggered() set firstTriggered) - kept so that a run can show the
+                \* EventCarries counterexample, i.e. that the invariant is not vacuous.
 
 VARIABLES
     cfg,        \* the configuration (chosen in Init, constant afterwards)
@@ -146,7 +152,7 @@ ImplEvent(c, s, lv, d1, d2) ==
         \* addEvent(t): leaving OK starts the duration, whether or not the event is triggered
         \* (before the fix recorded in KNOWN_FINDINGS.txt only triggered() set firstTriggered, so
         \* an entry into non-OK suppressed by flapping left a stale / zero start time behind)
-        firstA  == IF s.hist[s.idx] = 0 /\ lv # 0 THEN 0 ELSE first1
+        firstA  == IF LeaveOKStartsDuration /\ s.hist[s.idx] = 0 /\ lv # 0 THEN 0 ELSE first1
         \* triggered(t): firstTriggered is (re)set if the previous history entry is OK
         first2  == IF trig /\ hist2[PrevIdx(c.H, idx2)] = 0 THEN 0 ELSE firstA
         last2   == IF trig THEN 0 ELSE last1
@@ -261,7 +267,7 @@ EmptyBatch == cfg.batch /\ UNCHANGED vars
 Next ==
     \/ \E p \in Classes(cfg), dt \in 0..MaxDt : Point(p, dt)
     \/ \E n \in 1..MaxBatch :
-         \E ps \in [1..n -> Classes(cfg)], gaps \in [2..n -> 0..1], dt \in 0..MaxDt, g \in 0..1 :
+         \E ps \in [1..n -> Classes(cfg)], gaps \in [2..n -> 0..1], dt \in 0..MaxBDt, g \in 0..1 :
             Batch(ps, dt, gaps, g)
     \/ EmptyBatch
 
